@@ -134,8 +134,112 @@ struct BufPool {
     }
 };
 
+
+// ------------------------------------------------------------------ string_stream
+struct StreamPool {
+    typedef ST::string_stream S;
+    static const int MAXP = 6;
+    alignas(S) unsigned char mem[MAXP][sizeof(S)];
+    bool live[MAXP];
+    int pool;
+    explicit StreamPool(int p) : pool(p) { for (int i = 0; i < MAXP; ++i) live[i] = false; memset(mem, 0, sizeof(mem)); }
+    S &at(int i) { return *reinterpret_cast<S *>(mem[i]); }
+    void kill(int i) { at(i).~S(); live[i] = false; memset(mem[i], 0, sizeof(S)); }
+
+    std::string observe()
+    {
+        std::ostringstream o;
+        for (int i = 0; i < pool; ++i) {
+            o << ";" << i << "=";
+            if (!live[i]) { o << "-"; continue; }
+            S &b = at(i);
+            const unsigned char *d = reinterpret_cast<const unsigned char *>(b.raw_buffer());
+            char loc = 'H';
+            for (int k = 0; k < pool; ++k)
+                if (d >= mem[k] && d < mem[k] + sizeof(S)) loc = (k == i) ? 'L' : 'F';
+            o << hex(b.raw_buffer(), b.size()) << ":" << b.size() << ":" << loc;
+        }
+        bool sh = false;
+        for (int i = 0; i < pool; ++i)
+            for (int k = i + 1; k < pool; ++k) {
+                if (!live[i] || !live[k]) continue;
+                // capacity is not observable; compare the used ranges and the start pointers
+                const char *a0 = at(i).raw_buffer(), *a1 = a0 + at(i).size();
+                const char *b0 = at(k).raw_buffer(), *b1 = b0 + at(k).size();
+                if ((a0 < b1 && b0 < a1) || a0 == b0) sh = true;
+            }
+        o << ";sh=" << (sh ? 1 : 0);
+        return o.str();
+    }
+
+    void apply(const std::vector<std::string> &f)
+    {
+        const std::string &op = f[0];
+        int o = atoi(f[1].c_str());
+        if (op == "new") { new (mem[o]) S(); live[o] = true; }
+        else if (op == "move") { new (mem[o]) S(std::move(at(atoi(f[2].c_str())))); live[o] = true; }
+        else if (op == "masg") { S &src = at(atoi(f[2].c_str())); at(o) = std::move(src); }
+        else if (op == "app") { Block<char> d = units<char>(f[2]); at(o).append(d.data(), d.size()); }
+        else if (op == "app.cstr") { Block<char> d = units<char>(f[2], 1); at(o) << d.data(); }
+        else if (op == "app.auto") { Block<char> d = units<char>(f[2], 1); at(o).append(d.data()); }
+        else if (op == "app.st") { Block<char> d = units<char>(f[2]); at(o) << ST::string::from_validated(d.data(), d.size()); }
+        else if (op == "app.std") { Block<char> d = units<char>(f[2]); at(o) << std::string(d.data(), d.size()); }
+        else if (op == "app.view") { Block<char> d = units<char>(f[2]); at(o) << std::string_view(d.data(), d.size()); }
+        else if (op == "app.u8") { Block<char> d = units<char>(f[2]); at(o) << std::u8string(reinterpret_cast<const char8_t *>(d.data()), d.size()); }
+        else if (op == "appc") { at(o).append_char(char(u64(f[2])), u64(f[3])); }
+        else if (op == "shlc") { at(o) << char(u64(f[2])); }
+        else if (op == "trunc") { at(o).truncate(u64(f[2])); }
+        else if (op == "erase") { at(o).erase(u64(f[2])); }
+        else if (op == "shl") {
+            const std::string &ty = f[2];
+            if (ty == "i32") at(o) << int(i64(f[3]));
+            else if (ty == "u32") at(o) << (unsigned int)(u64(f[3]));
+            else if (ty == "i64") at(o) << long(i64(f[3]));
+            else if (ty == "u64") at(o) << (unsigned long)(u64(f[3]));
+            else if (ty == "ill") at(o) << (long long)(i64(f[3]));
+            else if (ty == "ull") at(o) << (unsigned long long)(u64(f[3]));
+            else { fprintf(stderr, "h_mem: shl type %s\n", ty.c_str()); exit(2); }
+        }
+        else if (op == "del") { kill(o); }
+        else { fprintf(stderr, "h_mem: unknown stream op %s\n", op.c_str()); exit(2); }
+    }
+
+    std::string run(const Args &a)
+    {
+        std::vector<std::string> ops = split_on(a[1], ';');
+        long fail_step = -1, fail_k = -1;
+        if (a.size() > 2 && a[2].compare(0, 7, "failat=") == 0) {
+            std::vector<std::string> fk = split_on(a[2].substr(7), '@');
+            fail_k = atol(fk[0].c_str());
+            fail_step = atol(fk[1].c_str());
+        }
+        long base = g_live_arr;
+        std::ostringstream out;
+        for (size_t s = 0; s < ops.size(); ++s) {
+            std::vector<std::string> f = split_on(ops[s], ',');
+            std::string r = "ok";
+            g_window = true;
+            g_window_allocs = 0;
+            g_fail_in = (long(s) == fail_step) ? fail_k : -1;
+            try {
+                apply(f);
+            } catch (const std::bad_alloc &) {
+                r = "bad_alloc";
+            }
+            g_window = false;
+            g_fail_in = -1;
+            out << (s ? "|" : "") << "r=" << r << observe();
+        }
+        for (int i = 0; i < pool; ++i)
+            if (live[i]) kill(i);
+        out << "|leak=" << (g_live_arr - base);
+        return out.str();
+    }
+};
+
 static std::string dispatch(const std::string &op, const Args &a)
 {
+    if (op == "ss") { StreamPool p(atoi(a[0].c_str())); return p.run(a); }
     if (op == "buf") {
         int pool = atoi(a[1].c_str());
         if (a[0] == "c") { BufPool<char> p(pool); return p.run(a); }
